@@ -43,8 +43,21 @@ fn scale_ok(s: f32) -> bool {
     s.is_finite() && s > 1e-20 && s < 1e20
 }
 
+/// The scroll amount an encoded value stands for: |v| <= 1_000_000 is the
+/// amount itself; 2_000_000 + k is k / 16 (fractional amounts); 3_000_000 + k
+/// is k * 1e-7 and 4_000_000 + k is k * 1e-42 (tiny and subnormal amounts: the
+/// zoom factor 2^(a/100) rounds to exactly 1, so the view cannot change)
+fn sv(scroll: i32) -> f32 {
+    match scroll {
+        1_500_000..=2_500_000 => (scroll - 2_000_000) as f32 / 16.0,
+        2_500_001..=3_500_000 => (scroll - 3_000_000) as f32 * 1e-7,
+        3_500_001..=4_500_000 => (scroll - 4_000_000) as f32 * 1e-42,
+        _ => scroll as f32,
+    }
+}
+
 fn scroll_factor(scroll: i32) -> f32 {
-    (scroll as f32 / 100.0).exp2()
+    (sv(scroll) / 100.0).exp2()
 }
 
 // ---------------------------------------------------------------- 2D
@@ -131,7 +144,7 @@ fn run2(case: &Case, cx: &mut Cx) -> CheckResult {
                 (pw, c.view().world_to_model().transform_point(&pw))
             });
             let (c0, s0) = c.view().components();
-            let ch = c.zoom(scroll as f32, at.map(|(x, y)| Point2::new(x, y)));
+            let ch = c.zoom(sv(scroll), at.map(|(x, y)| Point2::new(x, y)));
             if let Some((pw, b)) = before_pt {
                 let a = c.view().world_to_model().transform_point(&pw);
                 let (c1, s1) = c.view().components();
@@ -213,12 +226,12 @@ fn run2(case: &Case, cx: &mut Cx) -> CheckResult {
                         last_drag_pos = None;
                     }
                 }
-                if drag.is_some() && *scroll != 0 {
+                if drag.is_some() && sv(*scroll) != 0.0 {
                     zoom_during_drag = true;
                 }
-                let ch = c.interact(size, cs, *scroll as f32);
+                let ch = c.interact(size, cs, sv(*scroll));
                 changed = Some(ch);
-                if *scroll == 0 {
+                if sv(*scroll) == 0.0 {
                     if let (Some(d), Some((x, y, _))) = (&drag, cursor) {
                         check_pan(&c, d, *x, *y, size, size_t, cx)?;
                     }
@@ -343,7 +356,7 @@ fn run3(case: &Case, cx: &mut Cx) -> CheckResult {
                 (pw, c.view().world_to_model().transform_point(&pw))
             });
             let (c0, s0, _, _) = c.view().components();
-            let ch = c.zoom(scroll as f32, at.map(|(x, y)| Point2::new(x, y)));
+            let ch = c.zoom(sv(scroll), at.map(|(x, y)| Point2::new(x, y)));
             if let Some((pw, b)) = bp {
                 let a = c.view().world_to_model().transform_point(&pw);
                 let (c1, s1, _, _) = c.view().components();
@@ -420,12 +433,12 @@ fn run3(case: &Case, cx: &mut Cx) -> CheckResult {
                         last_drag_pos = None;
                     }
                 }
-                if drag.is_some() && *scroll != 0 {
+                if drag.is_some() && sv(*scroll) != 0.0 {
                     zoom_during_drag = true;
                 }
-                let ch = c.interact(size, cs, *scroll as f32);
+                let ch = c.interact(size, cs, sv(*scroll));
                 changed = Some(ch);
-                if *scroll == 0 {
+                if sv(*scroll) == 0.0 {
                     if let (Some(d), Some((x, y, _))) = (&drag, cursor) {
                         check_drag(&c, d, *x, *y, size, size_t, cx)?;
                     }
@@ -484,7 +497,16 @@ impl Prop for P {
                 1 => (-100_000i32..=100_000, -100_000i32..=100_000),
             ]
         };
-        let scroll = || prop_oneof![3 => Just(0i32), 4 => -300i32..=300, 1 => -3000i32..=3000];
+        let scroll = || {
+            prop_oneof![
+                6 => Just(0i32),
+                8 => -300i32..=300,
+                2 => -3000i32..=3000,
+                2 => (-4000i32..=4000).prop_map(|k| 2_000_000 + k),
+                2 => (-200i32..=200).prop_map(|k| 3_000_000 + k),
+                1 => (-200i32..=200).prop_map(|k| 4_000_000 + k),
+            ]
+        };
         let op = prop_oneof![
             4 => (size(), prop::option::of((pos(), 0u8..3)), scroll(), any::<bool>()).prop_map(|(size, cur, scroll, keep)| Op::Interact {
                 size: if keep { (0, 0, 0) } else { size },
